@@ -51,7 +51,8 @@ def case(d):
     sets = []
     for _ in range(d.int(3, 6)):
         o = {"colors": d.bool(0.5), "fmt": d.choice([None, "humanized", "json"]), "o": d.bool(0.3), "debug": d.weighted([(4, 0), (2, 1), (1, 2)]),
-             "R": d.weighted([(4, None), (2, "CheckForbiddenSourceHeader"), (1, "Foo"), (2, "CheckDefine")]), "inline": d.bool(0.3)}
+             "R": d.weighted([(4, None), (2, "CheckForbiddenSourceHeader"), (1, "Foo"), (2, "CheckDefine"), (1, "CheckDefines"), (1, "NoCheckDefine"), (1, "checkdefine"),
+                                   (1, "CheckDefine,CheckForbiddenSourceHeader"), (1, "Check")]), "inline": d.bool(0.3)}
         sets.append(o)
     return p, sets
 
